@@ -115,19 +115,42 @@ func (ex *Ex) callbackCall(fr *Frame, st *State, ins ssa.Instruction, callee *ss
 			}
 		})
 	}
-	// after the call
-	havoc(st)
-	n := ex.FreshVar("ncalls", SInt)
-	st.Assume(Ge(n, IntLit(0)))
-	setGhost(st, n)
-	ainvs, _ := evalInvs(st)
-	for _, t := range ainvs {
-		st.Assume(t)
+	// after the call: the callee's own contract first (it may say how often / on what the closure
+	// was called, in terms of $ncalls starting from 0 here), then the captured variables the
+	// closure writes are havoced and the invariant is assumed for the resulting call count
+	finish := func(s *State) {
+		havoc(s)
+		n, ok := s.ghost["$ncalls"]
+		if !ok || n.T == nil {
+			nv := ex.FreshVar("ncalls", SInt)
+			s.Assume(Ge(nv, IntLit(0)))
+			n = SV{T: nv, Ty: tInt}
+		}
+		setGhost(s, n.T)
+		ainvs, _ := evalInvs(s)
+		for _, t := range ainvs {
+			s.Assume(t)
+		}
 	}
 	if ctr != nil && !ctr.Inline {
-		ex.callByContract(fr, st, ins, callee, ctr, args, k)
+		setGhost(st, IntLit(0))
+		if len(ctr.CallbackParams) == 0 {
+			nv := ex.FreshVar("ncalls", SInt)
+			st.Assume(Ge(nv, IntLit(0)))
+			setGhost(st, nv)
+		}
+		ex.callByContract(fr, st, ins, callee, ctr, args, func(s2 *State, res Val) {
+			finish(s2)
+			k(s2, res)
+		})
 		return true
 	}
+	{
+		nv := ex.FreshVar("ncalls", SInt)
+		st.Assume(Ge(nv, IntLit(0)))
+		setGhost(st, nv)
+	}
+	finish(st)
 	// no contract: results havoced (visit-style helpers return nothing)
 	res, _ := ex.freshResults(shortFn(ex.W.funcName(callee)), callee.Signature)
 	k(st, res)
